@@ -749,13 +749,8 @@ def run(only=None):
             "from_hytera_ipsc(bytes)": lambda fr: Burst.from_hytera_ipsc(fr).hytera_ipsc.as_ipsc_bytes(),
             "from_hytera_ipsc(parser object)": lambda fr: Burst.from_hytera_ipsc(IpSiteConnectProtocol.from_bytes(fr)).hytera_ipsc.as_ipsc_bytes(),
         }
-        import contextlib, io, logging
-        logging.disable(logging.CRITICAL)
-        try:
-            with contextlib.redirect_stdout(io.StringIO()):
-                hist.poisoned_histories(s, funcs, bad_args, probes, nchildren=2)
-        finally:
-            logging.disable(logging.NOTSET)
+        with contextlib.redirect_stdout(io.StringIO()):
+            hist.poisoned_histories(s, funcs, bad_args, probes, nchildren=2)
         s.done()
 
     rep.bounds = {
